@@ -520,7 +520,7 @@ func (g *generator) genCase(prof string) ([]*pvcase.Case, *caseGen) {
 		if cg.f.act {
 			cg.f.globEff = g.chance(0.3)
 			cg.f.stateEff = fl.HasState() && g.chance(0.3)
-			cg.f.errP = 0.05
+			cg.f.errP = 0.12
 		}
 		cg.f.stc = fl.GlobalState && g.chance(0.4)
 		if cg.f.stc {
